@@ -457,6 +457,7 @@ theorem QInv.afterApply {L : LogicData} {b : Branch} {h : BranchH} (H : QInv L b
   cases r with
   | closure => exact H
   | frame fr => exact H
+  | ident => exact H
   | table k =>
     simp only
     split
